@@ -29,6 +29,7 @@ func module() pipe.Tree {
 		fmt.Fprintf(&a, "// T%02d is number %d.\ntype T%02d struct {\n\t// F doc\n\tF int\n\tG []int\n}\n\n", i, i, i)
 	}
 	a.WriteString("// Off is switched off but keeps a sub-option.\n// +gengo:g1=false\n// +gengo:g1:sub=v\n// +gengo:deepcopy=false\n// +gengo:deepcopy:interfaces=Object\ntype Off struct{ X int }\n\n")
+	a.WriteString("// Opt and opt differ only in case (a sort that ignores case leaves their order to chance).\ntype Opt struct{ V []int }\n\ntype opt struct{ W map[string]int }\n\nvar _ opt\n\ntype ROUTE int\n\ntype Route int\n\ntype route int\n\nvar _ route\n\n")
 	a.WriteString("// Sub has only a sub-option.\n// +gengo:g2:opt=1\ntype Sub struct{ X int }\n\ntype Alias = T\n")
 	return pipe.Tree{
 		"go.mod":                 pipe.GoMod(modPath, "1.24"),
